@@ -86,9 +86,8 @@ Definition show_rule (r : rule) : res str :=
   else do b <- show_goal (r_body r); Ok (show_term (r_head r) ++ s2l " :- " ++ b ++ [46]).
 
 (* infix.rs: Display for Infix *)
-Inductive infix :=
-| INone | IUnify | IEqual | IGreaterThan | ILessThan | IGreaterThanOrEqual | ILessThanOrEqual
-| IPlus | IMinus | IMultiply | IDivide.
+(* `infix` (infix.rs) is defined with the parsers in Model/ParseTerm.v *)
+From Suiron Require Import Model.ParseTerm.
 
 Definition show_infix (i : infix) : str :=
   match i with
